@@ -23,7 +23,7 @@ def run(ctx):
     ctx.model_check("Bulk", "MCBulkBad.cfg", workers=4)
     ctx.model_check("Shared", "MCShared.cfg", workers=4)
     # ---- bulk streams
-    ctx.run([vd, "bulk-run", "-repo", core.REPO, "-bulk", bulk, "-seed", str(ctx.seed), "-streams", "120" if q else "3000",
+    ctx.run([vd, "bulk-run", "-repo", core.REPO, "-bulk", bulk, "-gobl", ctx.gobl(), "-seed", str(ctx.seed), "-streams", "120" if q else "3000",
              "-out", ctx.path("bulk.ndjson")], timeout=3300)
     res = ctx.validate_trace("BulkTrace", ctx.path("bulk.ndjson"), shards=8, boundary='"kind":"start"')
     events = reordered = streams = 0
